@@ -12,5 +12,5 @@ open(f,'w').write(s.replace(old,new,1))
 PY
 [ $? -eq 0 ] || exit 3
 GOTOOLCHAIN=auto go build ./... 2>&1 | head -3
-cd /verif && ./check "$prop" quick | grep -E "VIOLATION|property=|BROKEN" | cut -c1-220
+cd /verif && VERIF_NO_EVIDENCE=1 ./check "$prop" quick | grep -E "VIOLATION|property=|BROKEN" | cut -c1-220
 git -C /repo checkout -- "$f"
